@@ -120,6 +120,7 @@ type FnCtx struct {
 	nonnil   map[string]bool
 	guardSeen map[string]bool
 	scoped    []int // script lines (assumptions) that are dropped after the next loop head
+	alias     map[string]string // recorded name -> current name of the variable in the same position
 	freshRefs map[string]bool
 }
 
